@@ -26,18 +26,17 @@ Ltac use_iter cfg HG HI1 HS1 :=
   end.
 Ltac side_pos HS :=
   repeat match goal with
-         | G : zget _ ?j = Some ?b |- _ =>
-           lazymatch type of b with borrowpos => idtac end;
+         | G : zget _ ?j = Some ?b, Hq : b_liq ?b = false |- _ =>
            lazymatch goal with
            | _ : 0 < b_in b |- _ => fail
-           | _ => pose proof (proj1 (HS j b G))
+           | _ => pose proof (proj1 (HS j b G Hq))
            end
          end.
 Ltac side_solve :=
   lazymatch goal with
   | |- Side _ _ (zset _ _ _) =>
-      eapply S_bor_upd; [side_solve | first [apply zget_zset_same | eassumption] | reflexivity | reflexivity
-                        | cbn [iter_b upd_borrow b_in]; lia]
+      eapply S_bor_upd; [side_solve | first [apply zget_zset_same | eassumption] | reflexivity | reflexivity | reflexivity
+                        | intros _; cbn [iter_b upd_borrow b_in]; lia]
   | |- Side _ _ (zdel _ _) => eapply S_bor_del; side_solve
   | |- Side _ (zset _ _ _) _ => eapply S_lend_upd; [side_solve | eassumption | reflexivity]
   | |- Side _ _ _ => assumption
